@@ -7,16 +7,17 @@ func init() { checks["C17"] = checkC17 }
 func checkC17(rep *Report, rng *Rng, tier string) {
 	per := 12
 	sets := []int{0, cbAllNeutral, cbBeforeWrite, cbAfterRead, cbItemAlloc, cbValLength, cbValWrite, cbValRead, cbKeyCompare,
-		cbValLength | cbValWrite | cbValRead, cbItemAlloc | cbAfterRead}
+		cbValLength | cbValWrite | cbValRead, cbItemAlloc | cbAfterRead, cbChunkMem, cbChunkMem | cbItemAlloc | cbBeforeWrite | cbAfterRead}
 	if tier == "thorough" {
 		per = 25
 		sets = nil
 		for s := 0; s < 128; s++ {
 			sets = append(sets, s)
 		}
+		sets = append(sets, cbChunkMem, cbChunkMem|cbItemAlloc|cbBeforeWrite|cbAfterRead, cbChunkMem|cbKeyCompare)
 	}
 	modelOn = true
-	rep.Rule = fmt.Sprintf("the correspondence checks of C01 (sorted map), C02 (durability, re-open of the image after every step), C06 (visits) and C14 (Coq decoder + conforms_v4 on the file) re-run with %d callback configurations (none, all, each alone, value triple, alloc+after-read; thorough: all 128 subsets) of behaviourally neutral callbacks: BeforeItemWrite/AfterItemRead returning the item unchanged, custom ItemAlloc, ItemValLength=len, ItemValWrite in 3-byte chunks, ItemValRead in 5-byte chunks, KeyCompareForCollection returning the collection's comparator; expected observations are the same reference/model as without callbacks; the same seeds are used for every configuration; non-trivial = at least 8 ops", len(sets))
+	rep.Rule = fmt.Sprintf("the correspondence checks of C01 (sorted map), C02 (durability, re-open of the image after every step), C06 (visits) and C14 (Coq decoder + conforms_v4 on the file) re-run with %d callback configurations (none, all, each alone, value triple, alloc+after-read; thorough: all 128 subsets) of behaviourally neutral callbacks: BeforeItemWrite/AfterItemRead returning the item unchanged, custom ItemAlloc, ItemValLength=len, ItemValWrite in 3-byte chunks, ItemValRead in 5-byte chunks, KeyCompareForCollection returning the collection's comparator; plus the tools/slab pattern: values chunked IN MEMORY (Item.Val = first 4 bytes, the rest in Item.Transient) with matching ItemValLength/ItemValWrite/ItemValRead; expected observations are the same reference/model as without callbacks; the same seeds are used for every configuration; non-trivial = at least 8 ops", len(sets))
 	gens := []func(*Rng, int) (CfgDesc, []Op){genC01, genC02, genC06, genC14}
 	base := rng.U64()
 	cfgCount := map[string]int{}
